@@ -41,28 +41,29 @@ Theorem c16_sound_proof :
                          /\ exists extra, ps = proof_f (gen_tree Hn leaves) (N.to_nat loc) m ++ extra)).
 Proof. exact sound_some. Qed.
 
-(* soundness for every proof argument outside the known class F-MERKLE-NONE (proof = None against a row above the leaves) *)
+(* soundness for every proof argument, absent proofs included (the None path refuses as soon as a sibling hash
+   would be needed; before fix 1b5f2d6f4 it accepted the stored row node above the location: F-MERKLE-NONE) *)
 Theorem c16_sound :
   forall Hn leaves m h loc proof,
-    ~ known_none Hn leaves m proof ->
     check_merkle_tree Hn (length leaves) (stored_row Hn leaves m) h loc proof = true ->
-    (loc < N.of_nat (length leaves))%N /\ (collision Hn \/ h = nth (N.to_nat loc) leaves []).
+    (loc < N.of_nat (length leaves))%N
+    /\ (collision Hn \/ (h = nth (N.to_nat loc) leaves []
+                         /\ exists extra, match proof with Some ps => ps | None => [] end
+                                          = proof_f (gen_tree Hn leaves) (N.to_nat loc) m ++ extra)).
 Proof. exact sound. Qed.
 
-(* the known class is real and exactly characterised: with proof = None the checker never hashes, it compares the
-   presented value with the stored row node above the location *)
-Theorem c16_none_characterised :
-  forall Hn leaves m h loc,
-    check_merkle_tree Hn (length leaves) (stored_row Hn leaves m) h loc None = true <->
-    (loc < N.of_nat (length leaves))%N
-    /\ nth_error (stored_row Hn leaves m) (N.to_nat loc / 2 ^ row_index Hn leaves m) = Some h.
-Proof. exact none_char. Qed.
+(* an absent proof never verifies more than the empty proof does (any count, any row), and against a genuine row
+   only when the generated proof is empty *)
+Theorem c16_none_as_empty :
+  forall Hn n row h loc,
+    check_merkle_tree Hn n row h loc None = true -> check_merkle_tree Hn n row h loc (Some []) = true.
+Proof. exact none_as_empty. Qed.
 
-Theorem c16_none_refuted :
-  exists leaves m h loc,
-    check_merkle_tree Hsym (length leaves) (stored_row Hsym leaves m) h loc None = true
-    /\ h <> nth (N.to_nat loc) leaves [].
-Proof. exact none_refuted. Qed.
+Theorem c16_none_only_when_empty :
+  forall Hn leaves m h loc,
+    check_merkle_tree Hn (length leaves) (stored_row Hn leaves m) h loc None = true ->
+    collision Hn \/ (h = nth (N.to_nat loc) leaves [] /\ proof_f (gen_tree Hn leaves) (N.to_nat loc) m = []).
+Proof. exact none_only_when_empty. Qed.
 
 (* index bound: a location at or beyond the leaf count is rejected whatever else is presented *)
 Theorem c16_index_bound :
@@ -84,5 +85,7 @@ Example c16_example :
   /\ proof_by_index Hsym leaves 4 2 = Some []
   /\ proof_by_index Hsym leaves 2 2 = Some [[4]%N; Hsym [1]%N [2]%N]
   /\ check_merkle_tree Hsym 5 (stored_row Hsym leaves 2) [3]%N 2 (Some [[4]%N; Hsym [1]%N [2]%N]) = true
-  /\ check_merkle_tree Hsym 5 (stored_row Hsym leaves 2) [3]%N 3 (Some [[4]%N; Hsym [1]%N [2]%N]) = false.
+  /\ check_merkle_tree Hsym 5 (stored_row Hsym leaves 2) [3]%N 3 (Some [[4]%N; Hsym [1]%N [2]%N]) = false
+  /\ check_merkle_tree Hsym 5 (stored_row Hsym leaves 2) [5]%N 4 None = true
+  /\ check_merkle_tree Hsym 5 (stored_row Hsym leaves 1) (Hsym [1]%N [2]%N) 0 None = false.
 Proof. vm_compute. repeat split; reflexivity. Qed.
